@@ -407,6 +407,138 @@ func ruleOutput(c *Ctx) {
 		})
 	}
 	c.atLeast("Close() calls on the current input", nOwn, 2)
+
+	// ---- WAIT: closing a command stream always waits for the command (its exit status is close()'s
+	// result, and what it still writes to the shared output must be delivered before the run goes on)
+	nWait := 0
+	for _, fn := range fns {
+		if fn.Name() != "Close" || fn.Signature.Recv() == nil {
+			continue
+		}
+		rt := named(deref(fn.Signature.Recv().Type()))
+		if rt == nil {
+			continue
+		}
+		st, ok := rt.Underlying().(*types.Struct)
+		if !ok {
+			continue
+		}
+		hasCmd := false
+		for i := 0; i < st.NumFields(); i++ {
+			if isNamed(deref(st.Field(i).Type()), "os/exec", "Cmd") {
+				hasCmd = true
+			}
+		}
+		if !hasCmd {
+			continue
+		}
+		nWait++
+		var waits []*ssa.BasicBlock
+		for _, b := range fn.Blocks {
+			for _, in := range b.Instrs {
+				if call, ok := in.(*ssa.Call); ok {
+					if cal := call.Call.StaticCallee(); cal != nil && (cal.Name() == "waitExitCode" || cal.Name() == "Wait") {
+						waits = append(waits, b)
+					}
+				}
+			}
+		}
+		bad := token.NoPos
+		for _, b := range fn.Blocks {
+			if len(b.Instrs) == 0 {
+				continue
+			}
+			ret, ok := b.Instrs[len(b.Instrs)-1].(*ssa.Return)
+			if !ok {
+				continue
+			}
+			dominated := false
+			for _, w := range waits {
+				if w == b || w.Dominates(b) {
+					dominated = true
+				}
+			}
+			if dominated {
+				continue
+			}
+			// the one early return allowed: the stream was closed before
+			rr := retResults(ret)
+			early := false
+			if len(rr) == 1 {
+				if u, ok := rr[0].(*ssa.UnOp); ok {
+					if g, ok := u.X.(*ssa.Global); ok && g.Name() == "errDoubleClose" {
+						early = true
+					}
+				}
+			}
+			if !early {
+				bad = ret.Pos()
+			}
+		}
+		c.check(bad == token.NoPos && len(waits) > 0, "wait-always:"+fnKey(fn), bad,
+			"every path (except the already-closed one) waits for the command",
+			fnKey(fn)+" can return without waiting for the command (for example after a failed flush): close() then reports -1 instead of the command's status and output the command still writes is lost or arrives after later output")
+	}
+	c.atLeast("command streams with a Close method", nWait, 2)
+
+	// ---- AS-GIVEN: the caller's writers are used as they are; only the default stdout is buffered by the interpreter
+	if sec := c.ssaFunc("interp", "interp.setExecuteConfig"); sec != nil {
+		for _, want := range []string{"output", "errorOutput"} {
+			nSt := 0
+			bad := ""
+			var badPos token.Pos
+			allInstrs(sec, func(in ssa.Instruction) {
+				name, val := interpFieldStore(in)
+				if name != want {
+					return
+				}
+				nSt++
+				v := val
+				for {
+					switch x := v.(type) {
+					case *ssa.ChangeInterface:
+						v = x.X
+						continue
+					case *ssa.MakeInterface:
+						v = x.X
+						continue
+					}
+					break
+				}
+				// a load of a Config field
+				if u, ok := v.(*ssa.UnOp); ok {
+					if f, _ := fieldOfAddr(u.X); f != nil && (f.Name() == "Output" || f.Name() == "Error") {
+						return
+					}
+					if g, ok := u.X.(*ssa.Global); ok && g.Pkg != nil && g.Pkg.Pkg.Path() == "os" {
+						return
+					}
+				}
+				// the default: a buffer around os.Stdout
+				if call, ok := v.(*ssa.Call); ok {
+					if cal := calleeObj(call); cal != nil && cal.Pkg() != nil && cal.Pkg().Path() == "bufio" && len(call.Call.Args) >= 1 {
+						a := call.Call.Args[0]
+						for {
+							if mi, ok := a.(*ssa.MakeInterface); ok {
+								a = mi.X
+								continue
+							}
+							break
+						}
+						if u, ok := a.(*ssa.UnOp); ok {
+							if g, ok := u.X.(*ssa.Global); ok && g.Pkg != nil && g.Pkg.Pkg.Path() == "os" {
+								return
+							}
+						}
+					}
+				}
+				bad = v.String()
+				badPos = in.Pos()
+			})
+			c.check(bad == "" && nSt >= 1, "as-given:"+want, badPos, "p."+want+" is the caller's writer itself, or the default standard stream",
+				"setExecuteConfig stores into p."+want+" something other than the caller's writer or the default standard stream ("+bad+"): a buffer the interpreter puts around the caller's writer hides write errors until the final flush, whose error is not reported, so failed output looks like success")
+		}
+	}
 }
 
 // traceInterpField: which interp field does an interface value come from (through type assertions / extracts)?
